@@ -16,7 +16,7 @@ Not decided: invariance of impedances / currents / pattern to 5e-4 (numeric).
 import ast
 from ..model import AnalysisError, walk_no_nested, norm, dotted, parent, is_const, const_value
 from ..dataflow import product_of
-from ..rules import loops_in, calls_in, assigns_to_attr
+from ..rules import loops_in, calls_in, assigns_to_attr, loop_reaches_on_all_paths
 
 
 def entry_kind(e, avar):
@@ -55,31 +55,85 @@ def run(ctx, ck):
     fl = ctx.flow(f)
     blocks = [n for n in f.body() if isinstance(n, ast.If)]
     found = {}
+    def helper_trig(call):
+        """(K, ok) if call is <helper>(rotation[K]) and the helper returns (cos(x), sin(x)) with
+        x = argument / 180 * pi"""
+        if not (isinstance(call, ast.Call) and len(call.args) == 1 and isinstance(call.args[0], ast.Subscript)
+                and isinstance(call.args[0].slice, ast.Constant)):
+            return None
+        name = call.func.attr if isinstance(call.func, ast.Attribute) else (
+            call.func.id if isinstance(call.func, ast.Name) else None)
+        h = m.resolve_method('Rotation_Matrix', name) if name else None
+        if h is None:
+            return None
+        hp = h.bound_params()
+        rets = [r_ for r_ in walk_no_nested(h.node) if isinstance(r_, ast.Return)]
+        if len(hp) != 1 or len(rets) != 1 or not isinstance(rets[0].value, ast.Tuple) or len(rets[0].value.elts) != 2:
+            return None
+        hfl = ctx.flow(h)
+        c_, s_ = [hfl.inline(e_, hfl.node_id_of(rets[0])) for e_ in rets[0].value.elts]
+
+        def arg_of(e_, fn):
+            if isinstance(e_, ast.Call) and (dotted(e_.func) or '').endswith(fn) and len(e_.args) == 1:
+                return e_.args[0]
+            return None
+        ca, sa = arg_of(c_, 'cos'), arg_of(s_, 'sin')
+        if ca is None or sa is None or norm(ca) != norm(sa):
+            return None
+        pr = product_of(ca)
+        nn, dd = pr.texts()
+        okang = nn == sorted([hp[0], 'np.pi']) and not dd and abs(pr.coef - 1 / 180) < 1e-15
+        return call.args[0].slice.value, okang
+
     for b in blocks:
         t = b.test
         if not (isinstance(t, ast.Subscript) and isinstance(t.slice, ast.Constant)):
             continue
         K = t.slice.value
         base = norm(t.value)
-        ang = [s for s in b.body if isinstance(s, ast.Assign) and isinstance(s.targets[0], ast.Name)
-               and not isinstance(s.value, ast.Call)]
         mats = [s for s in b.body if isinstance(s, ast.Assign) and isinstance(s.value, ast.Call)
                 and (dotted(s.value.func) or '').endswith('array')]
-        if len(ang) != 1 or len(mats) != 1:
+        ang = [s for s in b.body if isinstance(s, ast.Assign) and isinstance(s.targets[0], ast.Name)
+               and not isinstance(s.value, ast.Call)]
+        unp = [s for s in b.body if isinstance(s, ast.Assign) and isinstance(s.targets[0], ast.Tuple)
+               and isinstance(s.value, ast.Call)]
+        trig = {}
+        if len(ang) == 1 and len(mats) == 1:
+            avar = ang[0].targets[0].id
+            pr = product_of(ang[0].value)
+            nn, dd = pr.texts()
+            ok = nn == sorted(['%s[%d]' % (base, K), 'np.pi']) and not dd and abs(pr.coef - 1 / 180) < 1e-15
+            ck.ob('R-LIT.rotation', 'axis%s|angle' % K, ok, f.loc(ang[0]),
+                  'angle = %s (component %d, degrees -> radians)' % (norm(ang[0].value), K))
+        elif len(unp) == 1 and len(mats) == 1 and len(unp[0].targets[0].elts) == 2:
+            ht = helper_trig(unp[0].value)
+            ok = ht is not None and ht[0] == K and ht[1] and norm(unp[0].value.args[0].value) == base
+            ck.ob('R-LIT.rotation', 'axis%s|angle' % K, ok, f.loc(unp[0]),
+                  'cos / sin of component %d (degrees -> radians) through %s' % (K, norm(unp[0].value.func)))
+            cn, sn = [e_.id for e_ in unp[0].targets[0].elts]
+            trig = {cn: 'c', sn: 's'}
+            avar = None
+        else:
             ck.ob('R-LIT.rotation', 'axis%s|shape' % K, False, f.loc(b), 'unexpected block shape')
             continue
-        avar = ang[0].targets[0].id
-        pr = product_of(ang[0].value)
-        nn, dd = pr.texts()
-        ok = nn == sorted(['%s[%d]' % (base, K), 'np.pi']) and not dd and abs(pr.coef - 1 / 180) < 1e-15
-        ck.ob('R-LIT.rotation', 'axis%s|angle' % K, ok, f.loc(ang[0]),
-              'angle = %s (component %d, degrees -> radians)' % (norm(ang[0].value), K))
+
+        def kind_of(e_):
+            if trig:
+                neg = False
+                x_ = e_
+                if isinstance(x_, ast.UnaryOp) and isinstance(x_.op, ast.USub):
+                    neg = True
+                    x_ = x_.operand
+                if isinstance(x_, ast.Name) and x_.id in trig:
+                    return ('-' if neg else '') + trig[x_.id]
+                return entry_kind(e_, '\x00')
+            return entry_kind(e_, avar)
         lit = mats[0].value.args[0]
         rows = lit.elts if isinstance(lit, ast.List) else []
         okm = len(rows) == 3 and all(isinstance(r, ast.List) and len(r.elts) == 3 for r in rows)
         why = 'not a 3x3 literal'
         if okm:
-            M = [[entry_kind(e, avar) for e in r.elts] for r in rows]
+            M = [[kind_of(e) for e in r.elts] for r in rows]
             a, b1, c1 = K, (K + 1) % 3, (K + 2) % 3
             want = {}
             for i in range(3):
@@ -231,16 +285,29 @@ def run(ctx, ck):
         own = [op for op in ('rotate', 'translate', 'scale') if op in m.cls(cname).methods]
         ck.ob('R-SIB.transform', '%s|inherits-transforms' % cname, not own, ci.loc(),
               '%s inherits rotate/translate/scale from Curve' % cname if not own else 'overrides %s' % own)
-    # dispatchers
+    # dispatchers: the operation is applied to every object (tag None) or to by_tag[tag]
+    from ..rules import self_closure
     for op, arg in (('rotate', 'rmatrix'), ('translate', 'translation'), ('scale', 'factor')):
         g = m.func('mininec.Geo_Container.%s' % op)
-        ifs = [n for n in g.body() if isinstance(n, ast.If) and norm(n.test) == 'tag is None']
-        ok = len(ifs) == 1
-        if ok:
-            b, e = ifs[0].body, ifs[0].orelse
-            ok = len(b) == 1 and isinstance(b[0], ast.For) and norm(b[0].iter) == 'self' and \
-                [norm(s) for s in b[0].body] == ['%s.%s(%s)' % (norm(b[0].target), op, arg)] and \
-                [norm(s) for s in e] == ['self.by_tag[tag].%s(%s)' % (op, arg)]
+        cl = self_closure(ctx, g)
+        calls_ = [c for c in walk_no_nested(g.node) if isinstance(c, ast.Call) and isinstance(c.func, ast.Attribute)
+                  and c.func.attr == op and [norm(a) for a in c.args] == [arg]
+                  and norm(c.func.value) not in ('self',)]
+        txt_all = ' ; '.join(norm(x.node) for x in cl)
+        has_lookup = 'self.by_tag[tag]' in txt_all
+        has_all = any(isinstance(l, ast.For) and norm(l.iter) == 'self' for x in cl for l in loops_in(x.node)) or \
+            any(isinstance(r_, ast.Return) and norm(r_.value) == 'self' for x in cl for r_ in walk_no_nested(x.node))
+        has_test = 'tag is None' in txt_all or 'tag is not None' in txt_all
+        ok = bool(calls_) and has_lookup and has_all and has_test
+        # every receiver is the loop variable of a loop over the selected objects, or by_tag[tag]
+        for c in calls_:
+            rv = c.func.value
+            if norm(rv) == 'self.by_tag[tag]':
+                continue
+            lp = parent(c)
+            while lp is not None and not isinstance(lp, ast.For):
+                lp = parent(lp)
+            ok = ok and lp is not None and isinstance(rv, ast.Name) and norm(lp.target) == rv.id
         ck.ob('R-SIB.dispatch', g.qual, ok, g.loc(), 'tag None -> every object, else by_tag[tag]')
     g = m.func('mininec.Geo_Container.rotate')
     ok = any(norm(s) == 'rmatrix = Rotation_Matrix(rotation)' for s in g.body())
@@ -280,14 +347,21 @@ def run(ctx, ck):
         key = apply_loop[0].iter.keywords
         ok = len(key) == 1 and key[0].arg == 'key' and norm(key[0].value) == 'lambda x: x[0]'
         ck.ob('R-ORDER.main', 'sorted-by-key', ok, mainf.loc(apply_loop[0]), 'transformations applied in sort-key order')
-        # transformation tuples carry (key, bound method, vector, tag, text)
-        apps = [c for c in calls_in(mainf.node, attr='append') if norm(c.func.value) == 'geo_transforms']
-        shapes = sorted(norm(c.args[0]) for c in apps)
-        ok = shapes == ['(key, geo.rotate, rotation, tag, rot)', '(key, geo.translate, translation, tag, tr)']
-        call = [c for c in walk_no_nested(apply_loop[0]) if isinstance(c, ast.Call) and isinstance(c.func, ast.Subscript)]
-        ok = ok and len(call) == 1 and norm(call[0]) == 't[1](t[0], t[2], t[3])'
-        ck.ob('R-ORDER.main', 'transform-call', ok, mainf.loc(apply_loop[0]),
-              'each entry calls its own method with (key, vector, tag): %s' % shapes)
+        # each entry calls the container method it was recorded with, once per entry
+        lp_ = apply_loop[0]
+        eds = [e for e in prog.edges['mininec.main'] if e.kind == 'call' and
+               e.callee.qual in ('mininec.Geo_Container.rotate', 'mininec.Geo_Container.translate') and
+               lp_.lineno <= getattr(e.node, 'lineno', 0) <= lp_.end_lineno]
+        nodes_ = {id(e.node) for e in eds}
+        callees_ = {e.callee.qual for e in eds}
+        ok = len(nodes_) == 1 and callees_ == {'mininec.Geo_Container.rotate', 'mininec.Geo_Container.translate'}
+        cnt_ = None
+        if ok:
+            cn = eds[0].node
+            cnt_ = loop_reaches_on_all_paths(mfl, lp_, lambda n: n.stmt is not None and any(x is cn for x in ast.walk(n.stmt)))
+            ok = cnt_ == (1, 1) and len(cn.args) == 3
+        ck.ob('R-ORDER.main', 'transform-call', ok, mainf.loc(lp_),
+              'each recorded transformation calls its own container method once (%s, %s)' % (sorted(callees_), cnt_))
 
     # ---------------------------------------------------------------- D4
     from .C14 import check_f_setter
